@@ -132,10 +132,10 @@ theorem batchMembers_safe (st : SeqSt) (f : Str) (h : SafeAll st.rest) : SafeAll
   simp only [List.mem_append] at he
   rcases he with ((((he | he) | he) | he) | he) | he
   · simp at he; obtain ⟨_, _, rfl⟩ := he; simp [safe]
-  · split at he <;> simp at he <;> subst he <;> simp [safe]
-  · split at he <;> simp at he; subst he; simp [safe]
-  · split at he <;> simp at he <;> subst he <;> simp [safe]
-  · split at he <;> simp at he <;> subst he <;> simp [safe]
+  · unfold litBlock at he; split at he <;> simp at he <;> subst he <;> simp [safe]
+  · unfold ilitBlock at he; split at he <;> simp at he; subst he; simp [safe]
+  · unfold rxBlock at he; split at he <;> simp at he <;> subst he <;> simp [safe]
+  · unfold rxBlock at he; split at he <;> simp at he <;> subst he <;> simp [safe]
   · exact h e he
 
 mutual
